@@ -102,6 +102,20 @@ class Acc:
                 self.extra[k] = v
 
 
+_NETNS = []
+
+
+def _netns_available():
+    if not _NETNS:
+        try:
+            r = subprocess.run(["unshare", "-n", "sh", "-c", "ip link set lo up && ip addr show lo | grep -q 127.0.0.1"],
+                               stdout=subprocess.DEVNULL, stderr=subprocess.DEVNULL, timeout=10)
+            _NETNS.append(r.returncode == 0)
+        except Exception:
+            _NETNS.append(False)
+    return _NETNS[0]
+
+
 def _run_one(module, func, batch, timeout_s, idx):
     with tempfile.TemporaryDirectory(prefix="bvmw-", dir=os.environ.get("VERIF_TMP")) as td:
         fin = os.path.join(td, "in.json")
@@ -109,6 +123,9 @@ def _run_one(module, func, batch, timeout_s, idx):
         with open(fin, "w") as f:
             json.dump(batch, f)
         cmd = [PY, "-m", "bvm.worker", module, func, fin, fout]
+        if isinstance(batch, dict) and batch.get("real") and _netns_available():
+            # real-loopback batches get a private network namespace: no port can collide with anything else on the machine
+            cmd = ["unshare", "-n", "sh", "-c", 'ip link set lo up 2>/dev/null; exec "$@"', "sh"] + cmd
         t0 = time.time()
         try:
             p = subprocess.run(cmd, env=child_env(), cwd=VERIF, timeout=timeout_s,
